@@ -822,6 +822,31 @@ class FnItem:
         if sp.get("profile_debug") is not None:
             body, h = r4_cfg_resolve(body, sp["profile_debug"])
             hits["R4"] = h
+        if sp.get("nested_items_dropped"):
+            # R27 nested-item hoisting: `struct` / `impl` items declared inside this function body are extracted as items of their
+            # own (inside_fn=..); their text is removed from the body (item declarations have no run-time effect where they stand)
+            toks, match = _toks(body)
+            edits = []
+            i = 1
+            depth_end = match[0]
+            while i < depth_end:
+                t = toks[i]
+                if t.text in ("(", "[", "{"):
+                    i = match[i] + 1
+                    continue
+                if t.kind == "ident" and t.text in ("struct", "impl") and toks[i - 1].text in ("{", "}", ";"):
+                    j = i
+                    while toks[j].text not in ("{", ";"):
+                        if toks[j].text in ("(", "["):
+                            j = match[j]
+                        j += 1
+                    e = match[j] if toks[j].text == "{" else j
+                    edits.append((t.start, toks[e].end, ""))
+                    hits["R27"] = hits.get("R27", 0) + 1
+                    i = e + 1
+                    continue
+                i += 1
+            body = _apply(body, edits)
         for extra in sp.get("pre_rewrites", []):
             # unit-local rewrites that must run before the language desugarings (e.g. a visitor callback turned into a `for` loop)
             body, h = extra(body)
@@ -900,7 +925,7 @@ class FnItem:
             expected = hits
         # R1 / R2 only remove or guard logging, R3/R3b/R6/R7/R14/R20 are the language's own desugarings: their site
         # counts are recorded, not pinned.  Pinned: rewrites that abstract something (R4 profile, R9 counters, clock ...)
-        free = ("R1", "R2", "R3", "R3b", "R6", "R7", "R14", "R20", "R21", "R22", "R25", "R26") + tuple(sp.get("unpinned", ()))
+        free = ("R1", "R2", "R3", "R3b", "R6", "R7", "R14", "R20", "R21", "R22", "R25", "R26", "R27") + tuple(sp.get("unpinned", ()))
         strict = lambda d: {k: v for k, v in d.items() if k not in free}
         if strict(hits) != strict(expected):
             raise Undecided("%s::%s: rewrite sites changed: expected %r, found %r" % (self.rel, self.name, expected, hits))
